@@ -94,7 +94,7 @@ theorem history_is_accepted_sequence (clk : Clock C) (cfg : Cfg) (hIt : 0 < cfg.
 /-- At every boundary of the time loop (between two solves, and when the loop has ended at the final time)
     the current iterate, the most recent time-step value and the last accepted solution coincide. -/
 theorem loop_boundary_consistent (clk : Clock C) (cfg : Cfg) (hIt : 0 < cfg.nIt) (hTs : 0 < cfg.nTs)
-    (v0 : V) (c0 : C) (tapes : List (List (Iter V))) (hok : ∀ t ∈ tapes, TapeOk t) :
+    (v0 : V) (c0 : C) (tapes : List (List (Iter V))) (hok : ∀ t ∈ tapes, NoBoth cfg t) :
     let r := runAll clk cfg (startRun clk cfg v0 c0) tapes
     (r.status = .running ∨ r.status = .finished) →
     r.sol.its.head? = r.sol.tss.head? ∧ r.sol.tss.head? = r.accepted.head? := by
@@ -132,7 +132,7 @@ theorem finished_is_final (clk : Clock C) (cfg : Cfg) (hIt : 0 < cfg.nIt) (hTs :
     exhausted tape, still running) is possible. -/
 theorem ends_at_final_time_or_raises (clk : Clock C) (cfg : Cfg) (inv : C → Prop) (μ : C → Nat)
     (hT : Terminating clk inv μ) (v0 : V) (c0 : C) (hc0 : inv c0) (tapes : List (List (Iter V)))
-    (hok : ∀ t ∈ tapes, TapeOk t ∧ cfg.maxIt < t.length) (hlen : μ c0 < tapes.length) :
+    (hok : ∀ t ∈ tapes, NoBoth cfg t ∧ cfg.maxIt < t.length) (hlen : μ c0 < tapes.length) :
     let r := runAll clk cfg (startRun clk cfg v0 c0) tapes
     (r.status = .finished ∧ clk.final r.clock = true ∧ inv r.clock) ∨ ∃ e, r.status = .raised e := by
   intro r
@@ -197,7 +197,7 @@ theorem simpleClock_terminating (p : SCParams) : Terminating (simpleClock p) (sc
 /-- … hence every run over the tick clock with enough well-formed tapes ends EXACTLY at the final time
     (last solve accepted or not needed) or raises, whatever the failure pattern. -/
 theorem simpleClock_run_ends (p : SCParams) (cfg : Cfg) (v0 : V) (d0 : Nat) (hd : 1 ≤ d0) (hd' : d0 ≤ p.final)
-    (tapes : List (List (Iter V))) (hok : ∀ t ∈ tapes, TapeOk t ∧ cfg.maxIt < t.length)
+    (tapes : List (List (Iter V))) (hok : ∀ t ∈ tapes, NoBoth cfg t ∧ cfg.maxIt < t.length)
     (hlen : p.final * (p.recompMax + 1) + p.recompMax < tapes.length) :
     let r := runAll (simpleClock p) cfg (startRun (simpleClock p) cfg v0 ⟨0, d0, 0⟩) tapes
     (r.status = .finished ∧ r.clock.t = p.final) ∨ ∃ e, r.status = .raised e := by
@@ -215,25 +215,139 @@ theorem simpleClock_run_ends (p : SCParams) (cfg : Cfg) (v0 : V) (d0 : Nat) (hd 
     omega
   · exact Or.inr h
 
-/-- A rejected step rewinds the (re-modelled) time manager: the time and the time index are those of the
+/-- A rejected step rewinds the time manager (C09's model): the time and the time index are those of the
     last accepted step again, and one recomputation is counted. -/
-theorem tm_retry_rewinds (p : TM.Params) (s s' : TM.State)
+theorem tm_retry_rewinds (p : C09.Params) (s s' : C09.TM)
     (h : (tmClock p).retry ((tmClock p).advance s) = .ok s') :
     (tmClock p).time s' = (tmClock p).time s ∧ s'.timeIndex = s.timeIndex ∧ s'.recompNum = s.recompNum + 1 :=
   tm_retry_rewinds' p s s' h
 
-/-- Time-dependent boundary values (repaired failure hook, `bcRewind = true`): at the start of EVERY Newton
+/-- `ends_at_final_time_or_raises` for the REAL time manager model: over `tmClock p` — C09's verified model of
+    `TimeManager`, simulated step by step by C09's time loop (`sim_runAll`) — with parameters the constructor
+    accepts (`C09.Admissible`), a positive `dt_min`, and a supply of well-formed tapes as long as C09's
+    termination bound `(recomp_max + 1)·((t_final − t_init)/dt_min + len(schedule) − 1)`, EVERY failure pattern
+    drives the run to "finished" with `final_time_reached()` true or to the `ValueError` of
+    `after_nonlinear_failure`.  (C09.run_terminates excludes "still running", C09.only_documented_errors
+    excludes an exception from the convergence hook.) -/
+theorem ends_at_final_time_or_raises_tm (p : C09.Params) (A : C09.Admissible p) (hmin : 0 < p.dtMin)
+    (cfg : Cfg) (v0 : V) (tapes : List (List (Iter V)))
+    (hok : ∀ t ∈ tapes, NoBoth cfg t ∧ cfg.maxIt < t.length)
+    (hlen : ((p.recompMax : Rat) + 1) *
+              ((p.timeFinal - p.timeInit) + p.dtMin * ((p.schedule.length - 1 : Nat) : Rat))
+              ≤ p.dtMin * (tapes.length : Rat)) :
+    let r := runAll (tmClock p) cfg (startRun (tmClock p) cfg v0 (C09.init p)) tapes
+    (r.status = .finished ∧ C09.finalTimeReached p r.clock = true) ∨ ∃ e, r.status = .raised e := by
+  intro r
+  obtain ⟨os, hl, hs⟩ := sim_runAll p cfg tapes hok _ _ (sim_start p cfg v0)
+  have hterm := C09.run_terminates p A hmin os (by rw [hl]; exact hlen)
+  have hdoc := (C09.only_documented_errors p A os).2
+  rcases hs with ⟨_, b, _⟩ | ⟨a, _, c, _⟩ | ⟨e, _, a, _⟩ | ⟨_, e', _, b⟩
+  · exact absurd b hterm
+  · left
+    refine ⟨a, ?_⟩
+    -- a finished C10 run has a clock at which `final_time_reached()` holds: `finished` is only set by `statusOf`
+    have key : ∀ (tapes : List (List (Iter V))) (r : Run V C09.TM),
+        (r.status = .finished → C09.finalTimeReached p r.clock = true) →
+        (runAll (tmClock p) cfg r tapes).status = .finished →
+          C09.finalTimeReached p (runAll (tmClock p) cfg r tapes).clock = true := by
+      intro tapes
+      induction tapes with
+      | nil => intro r h; exact h
+      | cons t ts ih =>
+        intro r h
+        rw [runAll_cons]
+        apply ih
+        by_cases hr : r.status = .running
+        case neg => rw [stepRun_not_running _ cfg r t hr]; exact h
+        have hspec := stepRun_spec (tmClock p) cfg r t hr
+        simp only [] at hspec
+        rcases hspec with ⟨_, c2, _, _, _, hclk, _, _, hst, _⟩ | ⟨_, e, _, hst, _⟩ | ⟨_, _, _, hclk, _, _, hst, _⟩ |
+            ⟨_, hst, _⟩ | ⟨_, c2, _, _, _, hclk, _, _, hst, _⟩ | ⟨_, e, _, hst, _⟩
+        · intro hf; rw [hst] at hf; rw [hclk]
+          rcases statusOf_cases (tmClock p) c2 with ⟨h1, _⟩ | ⟨_, h2⟩
+          · rw [h1] at hf; cases hf
+          · exact h2
+        · intro hf; rw [hst] at hf; cases hf
+        · intro hf; rw [hst] at hf; rw [hclk]
+          rcases statusOf_cases (tmClock p) ((tmClock p).advance r.clock) with ⟨h1, _⟩ | ⟨_, h2⟩
+          · rw [h1] at hf; cases hf
+          · exact h2
+        · intro hf; rw [hst] at hf; cases hf
+        · intro hf; rw [hst] at hf; rw [hclk]
+          rcases statusOf_cases (tmClock p) c2 with ⟨h1, _⟩ | ⟨_, h2⟩
+          · rw [h1] at hf; cases hf
+          · exact h2
+        · intro hf; rw [hst] at hf; cases hf
+    apply key tapes _ _ a
+    intro hf
+    rcases statusOf_cases (tmClock p) (C09.init p) with ⟨h1, _⟩ | ⟨_, h2⟩
+    · have : (startRun (tmClock p) cfg v0 (C09.init p) : Run V C09.TM).status = statusOf (tmClock p) (C09.init p) := rfl
+      rw [this, h1] at hf; cases hf
+    · exact h2
+  · exact Or.inr ⟨e, a⟩
+  · exact absurd b (hdoc e')
+
+/-- … and the number of accepted steps of such a run is bounded (C09.accepted_steps_bounded transported along
+    the simulation): `dt_min · #accepted ≤ (t_final − t_init) + dt_min · len(schedule)`, whatever the tapes. -/
+theorem accepted_steps_bounded_tm (p : C09.Params) (A : C09.Admissible p) (hmin : 0 < p.dtMin)
+    (cfg : Cfg) (v0 : V) (tapes : List (List (Iter V)))
+    (hok : ∀ t ∈ tapes, NoBoth cfg t ∧ cfg.maxIt < t.length) :
+    let r := runAll (tmClock p) cfg (startRun (tmClock p) cfg v0 (C09.init p)) tapes
+    (r.status = .running ∨ r.status = .finished) →
+    p.dtMin * (r.acceptedT.length : Rat) ≤ (p.timeFinal - p.timeInit) + p.dtMin * (p.schedule.length : Rat) := by
+  intro r hst
+  obtain ⟨os, _, hs⟩ := sim_runAll p cfg tapes hok _ _ (sim_start p cfg v0)
+  have hb := C09.accepted_steps_bounded p A hmin os
+  rcases hs with ⟨_, _, _, d⟩ | ⟨_, _, _, d⟩ | ⟨e, _, a, _⟩ | ⟨e, _, a, _⟩
+  · show p.dtMin * ((runAll (tmClock p) cfg (startRun (tmClock p) cfg v0 (C09.init p)) tapes).acceptedT.length : Rat) ≤ _
+    rw [d]; exact hb
+  · show p.dtMin * ((runAll (tmClock p) cfg (startRun (tmClock p) cfg v0 (C09.init p)) tapes).acceptedT.length : Rat) ≤ _
+    rw [d]; exact hb
+  · rcases hst with h | h <;> (have : r.status = _ := h; rw [a] at this; cases this)
+  · rcases hst with h | h <;> (have : r.status = _ := h; rw [a] at this; cases this)
+
+/-- One Newton solve makes at most `max_iterations + 1` iterations (the loop condition is
+    `num_iteration <= max_iterations` with `num_iteration` counted from 0), never more than the tape has
+    entries; a solve that leaves the loop through that condition made exactly `max_iterations + 1`; and
+    the loop logs one "iter" and one "check" event per iteration. -/
+theorem newton_iterations_le (cfg : Cfg) (tape : List (Iter V)) (s : Sol V) :
+    (newton cfg 0 tape s).k ≤ cfg.maxIt + 1 ∧ (newton cfg 0 tape s).k ≤ tape.length ∧
+    ((newton cfg 0 tape s).fin = .maxIter → (newton cfg 0 tape s).k = cfg.maxIt + 1) ∧
+    (newton cfg 0 tape s).evs.length = 2 * (newton cfg 0 tape s).k := by
+  obtain ⟨_, h2, h3, h4⟩ := newton_k_bounds cfg tape 0 s
+  refine ⟨by omega, by omega, fun h => h4 h (by omega), ?_⟩
+  rw [newton_evs_length]; omega
+
+/-- Modelled `check_convergence`: with the default tolerances (`nl_divergence_tol = inf`,
+    `nl_convergence_tol_res = inf`) the two flags are never raised together … -/
+theorem checkConv_exclusive (tol : Rat) (v : Val) : ¬((checkConv tol v).1 = true ∧ (checkConv tol v).2 = true) := by
+  cases v <;> simp [checkConv]
+
+/-- … but with a finite `nl_divergence_tol` they are, whenever the increment is below `nl_convergence_tol`
+    while the residual norm exceeds `nl_divergence_tol` (the residual criterion of convergence is vacuous by
+    default): `check_convergence` CAN return (True, True). -/
+theorem checkConvRes_both_flags (tol divTol incNorm resNorm : Rat) (h1 : incNorm < tol) (h2 : divTol < resNorm) :
+    checkConvRes tol divTol (some (incNorm, resNorm)) = (true, true) := by
+  simp [checkConvRes, h1, h2]
+
+omit [Add V] in
+/-- With divergence overruling convergence (the repaired solver), an iteration that raises both flags makes
+    the solve FAIL like any diverged one — all theorems above then hold for every tape (`NoBoth` is free). -/
+theorem noBoth_of_divOverrules (cfg : Cfg) (h : cfg.divOverrules = true) (tape : List (Iter V)) : NoBoth cfg tape :=
+  Or.inl h
+
+/-- Time-dependent boundary values: at the start of EVERY Newton
     loop — first attempt or recomputation — `update_time_dependent_ad_arrays` leaves the boundary values of
     the new time in the iterate slot and, in the time-step slots, the values of the accepted times, most
     recent first (the initial time once more at the end), truncated to `nTs`. -/
-theorem bc_history_is_accepted_times (clk : Clock C) (cfg : Cfg) (hTs : 0 < cfg.nTs) (hrw : cfg.bcRewind = true)
-    (v0 : V) (c0 : C) (tapes : List (List (Iter V))) (hok : ∀ t ∈ tapes, TapeOk t) :
+theorem bc_history_is_accepted_times (clk : Clock C) (cfg : Cfg) (hTs : 0 < cfg.nTs)
+    (v0 : V) (c0 : C) (tapes : List (List (Iter V))) (hok : ∀ t ∈ tapes, NoBoth cfg t) :
     let r := runAll clk cfg (startRun clk cfg v0 c0) tapes
     r.status = .running → ∀ t : Rat,
       beforeLoop cfg t r.bc = { it := t, ts := (r.acceptedT ++ [clk.time c0]).take cfg.nTs } := by
   intro r hrun t
   have hinv : BcInv cfg (clk.time c0) r :=
-    bcinv_runAll clk cfg (clk.time c0) hTs hrw tapes hok _ (bcinv_start clk cfg v0 c0 hTs)
+    bcinv_runAll clk cfg (clk.time c0) hTs tapes hok _ (bcinv_start clk cfg v0 c0 hTs)
   obtain ⟨h1, h2, h3⟩ := hinv.ok (Or.inl hrun)
   exact beforeLoop_spec cfg t (clk.time c0) r.bc r.acceptedT hTs h1 h2 h3
 
@@ -267,31 +381,43 @@ example : (runAll exClk exCfg exStart exTapes).status = .raised "ValueError" := 
 
 -- a run that ends at the final time: the tapes satisfy the hypotheses of `ends_at_final_time_or_raises`
 example : let tapes : List (List (Iter Int)) := List.replicate 15 [⟨1, true, false⟩, ⟨0, false, false⟩]
-    (∀ t ∈ tapes, TapeOk t ∧ exCfg.maxIt < t.length) ∧ scMeasure ⟨4, 2⟩ ⟨0, 2, 0⟩ < tapes.length ∧
+    (∀ t ∈ tapes, NoBoth exCfg t ∧ exCfg.maxIt < t.length) ∧ scMeasure ⟨4, 2⟩ ⟨0, 2, 0⟩ < tapes.length ∧
     (runAll exClk exCfg exStart tapes).status = .finished ∧ (runAll exClk exCfg exStart tapes).clock.t = 4 ∧
     (runAll exClk exCfg exStart tapes).accepted = [12, 11, 10] := by
   refine ⟨?_, by decide +kernel, by decide +kernel, by decide +kernel, by decide +kernel⟩
   intro t ht
   rw [List.eq_of_mem_replicate ht]
-  exact ⟨by intro it hit; simp at hit; rcases hit with rfl | rfl <;> simp, by decide⟩
+  exact ⟨Or.inl rfl, by decide⟩
 
-/-- Witness that `TapeOk` is needed: with flags (True, True) `NewtonSolver.solve` leaves its loop through
-    the divergence `break`, calls neither hook and returns True — the loop goes on with an iterate that
-    was never stored as a time step. -/
+/-- Witness for finding "both-flags-returns-true-without-hooks": `NewtonSolver.solve` as it stands
+    (`divOverrules = false`) leaves its loop through the divergence `break` when both flags are raised, calls
+    neither hook and returns True — the time loop goes on with an iterate that was never stored as a time
+    step.  With divergence overruling (the model's default) the same tape is a failed, recomputed step. -/
 theorem both_flags_break_consistency :
-    let r := runAll exClk exCfg exStart [[⟨1, true, true⟩]]
-    r.status = .running ∧ r.last = .both ∧ r.sol.its.head? = some 11 ∧ r.sol.tss.head? = some 10 := by
+    let asCoded := runAll exClk { exCfg with divOverrules := false } exStart [[⟨1, true, true⟩]]
+    let repaired := runAll exClk exCfg exStart [[⟨1, true, true⟩]]
+    asCoded.status = .running ∧ asCoded.last = .both ∧ asCoded.sol.its.head? = some 11 ∧
+      asCoded.sol.tss.head? = some 10 ∧ asCoded.clock.t = 2 ∧
+    repaired.status = .running ∧ repaired.last = .retried ∧ repaired.sol.its.head? = some 10 ∧
+      repaired.sol.tss.head? = some 10 ∧ repaired.clock = ⟨0, 1, 1⟩ := by
   decide +kernel
 
-/-- Witness for finding "bc-ts0-after-failed-step": the code as it stands (`bcRewind = false`) starts the
-    recomputation of a rejected step (accepted times 2, 0; rejected attempt at time 4) with the REJECTED
-    time's boundary values in time-step slot 0; the repaired hook gives the accepted times. -/
-theorem bc_defect_witness :
-    let tapes : List (List (Iter Int)) := [[⟨1, true, false⟩], [⟨4, false, true⟩]]
-    let asCoded := runAll exClk { exCfg with bcRewind := false } (startRun exClk exCfg 10 ⟨0, 2, 0⟩) tapes
-    let repaired := runAll exClk exCfg exStart tapes
-    asCoded.status = .running ∧ asCoded.acceptedT = [2, 0] ∧
-    (beforeLoop exCfg 3 asCoded.bc).ts = [4, 2] ∧ (beforeLoop exCfg 3 repaired.bc).ts = [2, 0] := by
+-- the iteration bound is attained: max_iterations = 1 gives two iterations
+example : (newton exCfg 0 (exTapes.getD 2 []) exStart.sol).k = 2 ∧
+    (newton exCfg 0 (exTapes.getD 2 []) exStart.sol).fin = .maxIter := by decide +kernel
+
+-- the hypotheses of `ends_at_final_time_or_raises_tm` are satisfiable (schedule [0, 1, 2], dt 1/2 in [1/8, 1])
+def exTm : C09.Params :=
+  { schedule := [0, 1, 2], dtInit := 1/2, constantDt := false, dtMin := 1/8, dtMax := 1, iterMax := 15, iterLow := 1,
+    iterUpp := 3, underRelax := 1/2, overRelax := 2, recompFactor := 1/2, recompMax := 2, rtol := 0, atol := 0 }
+
+example : C09.Admissible exTm ∧ 0 < exTm.dtMin := by decide +kernel
+
+-- a run over the real time-manager model: accepted, rejected at t = 1 (recomputed with dt 1/4), then accepted up to t = 2
+def exTmTapes : List (List (Iter Int)) := [[⟨1, true, false⟩], [⟨1, false, true⟩]] ++ List.replicate 4 [⟨1, true, false⟩]
+
+example : let r := runAll (tmClock exTm) exCfg (startRun (tmClock exTm) exCfg (10 : Int) (C09.init exTm)) exTmTapes
+    r.status = .finished ∧ r.acceptedT = [2, 3/2, 1, 3/4, 1/2, 0] ∧ r.accepted = [15, 14, 13, 12, 11, 10] := by
   decide +kernel
 
 end Examples
